@@ -91,6 +91,9 @@ func C02(c *Ctx) {
 			{"Negate", ref.Neg(p.M), func(v, a, b *edwards25519.Point) *edwards25519.Point { return v.Negate(a) }, false},
 			{"MultByCofactor", ref.Mul(big.NewInt(8), p.M), func(v, a, b *edwards25519.Point) *edwards25519.Point { return v.MultByCofactor(a) }, false},
 		}
+		var res []*edwards25519.Point
+		var resM []ref.Pt
+		var resName []string
 		for oi, op := range ops {
 			// receiver state: 0 zero value, 1 aliased to p, 2 aliased to q, 3 arbitrary other
 			stt := r.Intn(4)
@@ -137,7 +140,62 @@ func C02(c *Ctx) {
 				continue
 			}
 			c.checkPointLimbs(v, op.name)
+			res, resM, resName = append(res, v), append(resM, op.want), append(resName, fmt.Sprintf("%s result (receiver-state %d)", op.name, stt))
 			c.Sample(op.name, map[string]any{"op": op.name, "P": hx(pe[:]) + " (" + p.Class + " via " + p.Build + ")", "Q": hx(qe[:]) + " (" + q.Class + " via " + q.Build + ")", "result": ptHex(op.want)})
+		}
+		// second round: the operands are the first round's results themselves (not copies), so
+		// whatever state the producing operation left in them is what the next operation reads
+		for k := 0; k < len(res); k++ {
+			x, y := res[k], res[(k+1+r.Intn(len(res)))%len(res)]
+			xm, ym := resM[k], ref.Pt{}
+			for j := range res {
+				if res[j] == y {
+					ym = resM[j]
+				}
+			}
+			var v *edwards25519.Point
+			switch r.Intn(3) {
+			case 0:
+				v = new(edwards25519.Point)
+			case 1:
+				v = edwards25519.NewIdentityPoint()
+			default:
+				v, _ = new(edwards25519.Point).SetBytes(pe[:])
+				if v == nil {
+					v = new(edwards25519.Point)
+				}
+			}
+			var want ref.Pt
+			which := r.Intn(4)
+			pv := catch(func() {
+				switch which {
+				case 0:
+					want = ref.Add(xm, ym)
+					v.Add(x, y)
+				case 1:
+					want = ref.Sub(xm, ym)
+					v.Subtract(x, y)
+				case 2:
+					want = ref.Neg(xm)
+					v.Negate(x)
+				default:
+					want = ref.Mul(big.NewInt(8), xm)
+					v.MultByCofactor(x)
+				}
+			})
+			c.Eval(nontriv, []byte{0xc2, byte(which), byte(k)}, pe[:], qe[:])
+			c.Tally("chained op on a first-round result")
+			det := map[string]any{"op": []string{"Add", "Subtract", "Negate", "MultByCofactor"}[which], "operand": resName[k], "P": hx(pe[:]) + " via " + p.Build, "Q": hx(qe[:]) + " via " + q.Build, "want": ptHex(want)}
+			if pv != nil {
+				det["panic"] = pv
+				c.Fail("unexpected panic", det)
+				continue
+			}
+			if why, st := checkPoint(v, want); why != "" {
+				det["why"] = why
+				det["got"] = hx(st.Enc)
+				c.Fail("wrong group-law result on an operand produced by a previous operation", det)
+			}
 		}
 	}
 }
